@@ -1226,6 +1226,113 @@ def m_iter_fold_loop(interp, fn, args, st, site, frame):
 
 
 
+# ------------------------------------------------------------------------------------------------
+# HashMap entry API, desugared into the map operations it stands for (the same call effects as the direct spelling):
+#   map.entry(k)            = match map.get_mut(&k) { Some(v) => Occupied{map, k, v}, None => Vacant{map, k} }
+#   occupied.get_mut() / get() / into_mut() = v ;  occupied.remove() = map.remove(&k).unwrap() ;  occupied.key() = &k
+#   vacant.insert(x) = map.insert(k, x)
+ENTRY = "std::collections::hash_map::Entry"
+
+
+def _map_prefix(fn):
+    full = fn.get("rfull") or fn.get("full") or ""
+    m = re.match(r"^(std::collections::HashMap::<.*>)::entry$", full)
+    if m:
+        return m.group(1)
+    m = re.match(r"^std::collections::hash_map::(?:OccupiedEntry|VacantEntry)::<'_, (.*)>::\w+(::<.*>)?$", full)
+    if m:
+        return "std::collections::HashMap::<%s>" % m.group(1)
+    return None
+
+
+def m_map_entry(interp, fn, args, st, site, frame):
+    pre = _map_prefix(fn)
+    if pre is None or len(args) != 2 or not isinstance(args[0], Ref):
+        return None
+    key_ty = pre[len("std::collections::HashMap::<"):-1].split(", ")[0]
+    st = st.fork()
+    kcell = ("h", "entry-key", site, frame.depth)
+    st.heap[kcell] = args[1]
+    rt = getattr(interp, "_ret_ty", None)
+    interp._ret_ty = None
+    try:
+        (got, st1), = interp.opaque_call("%s::get_mut::<%s>" % (pre, key_ty), [args[0], Ref(kcell, (), False)], st, site, frame)
+    finally:
+        interp._ret_ty = rt
+    # the payload type `&mut V`, from the type table of the crate (V = 2nd type argument of Entry<'_, K, V>)
+    pty = None
+    if isinstance(rt, TyRef):
+        targs = [a for a in (rt.rec.get("args") or []) if isinstance(a, int)]
+        if len(targs) >= 2:                     # K, V (, allocator)
+            refs = [ix for ix, rec in enumerate(rt.types) if rec.get("k") == "ref" and rec.get("to") == targs[1]]
+            refs.sort(key=lambda ix: 0 if rt.types[ix].get("mut") else 1)
+            if refs:
+                pty = TyRef(rt.types, refs[0])
+    out = []
+    for (o, st2) in opt_cases(interp, got, st1, "get_mut@" + site):
+        if o.variant == 1:
+            if pty is not None and isinstance(o.fields[0], Top) and o.fields[0].ty is None:
+                o = some(_fresh(interp, st2, interp.symbolic(pty, o.fields[0].label)))
+            out.append((Adt(ENTRY, 0, (Adt("OccupiedEntry", 0, (args[0], args[1], o.fields[0])),), "Occupied"), st2))
+        else:
+            out.append((Adt(ENTRY, 1, (Adt("VacantEntry", 0, (args[0], args[1])),), "Vacant"), st2))
+    return out
+
+
+def _entry_of(interp, a, st, name):
+    e = deref(interp, a, st) if isinstance(a, Ref) else a
+    e = interp.concretize(e, st)
+    return e if isinstance(e, Adt) and e.name == name else None
+
+
+def m_occupied_value(interp, fn, args, st, site, frame):
+    e = _entry_of(interp, args[0], st, "OccupiedEntry") if args else None
+    return None if e is None else [(e.fields[2], st)]
+
+
+def m_occupied_key(interp, fn, args, st, site, frame):
+    e = _entry_of(interp, args[0], st, "OccupiedEntry") or _entry_of(interp, args[0], st, "VacantEntry") if args else None
+    if e is None:
+        return None
+    st = st.fork()
+    kcell = ("h", "entry-key", site, frame.depth)
+    st.heap[kcell] = e.fields[1]
+    return [(Ref(kcell, (), False), st)]
+
+
+def m_occupied_remove(interp, fn, args, st, site, frame):
+    e = _entry_of(interp, args[0], st, "OccupiedEntry") if args else None
+    pre = _map_prefix(fn)
+    if e is None or pre is None:
+        return None
+    key_ty = pre[len("std::collections::HashMap::<"):-1].split(", ")[0]
+    st = st.fork()
+    kcell = ("h", "entry-key", site, frame.depth)
+    st.heap[kcell] = e.fields[1]
+    rt = getattr(interp, "_ret_ty", None)
+    interp._ret_ty = None
+    try:
+        (got, st1), = interp.opaque_call("%s::remove::<%s>" % (pre, key_ty), [e.fields[0], Ref(kcell, (), False)], st, site, frame)
+    finally:
+        interp._ret_ty = rt
+    # the entry is occupied: the removal yields its value
+    return [(o.fields[0], st2) for (o, st2) in opt_cases(interp, got, st1, "remove@" + site) if o.variant == 1]
+
+
+def m_vacant_insert(interp, fn, args, st, site, frame):
+    e = _entry_of(interp, args[0], st, "VacantEntry") if args else None
+    pre = _map_prefix(fn)
+    if e is None or pre is None or len(args) != 2:
+        return None
+    rt = getattr(interp, "_ret_ty", None)
+    interp._ret_ty = None
+    try:
+        (_old, st1), = interp.opaque_call("%s::insert" % pre, [e.fields[0], e.fields[1], args[1]], st, site, frame)
+    finally:
+        interp._ret_ty = rt
+    return [(interp.symbolic(rt, "ret:insert.value@%s" % site), st1)]
+
+
 def m_from_fn(interp, fn, args, st, site, frame):
     """std::iter::from_fn(f): an iterator whose next() is f()"""
     if len(args) != 1:
@@ -1445,6 +1552,11 @@ BASE_MODELS = [
     (r"as std::iter::Iterator>::(fold|for_each)(::<.*>)?$", m_iter_fold_loop),
     (r"as std::iter::Iterator>::(find|any|all|position)(::<.*>)?$", m_iter_find_loop),
     (r"as std::iter::Iterator>::find_map(::<.*>)?$", m_iter_find_map_loop),
+    (r"^std::collections::HashMap::<.*>::entry$", m_map_entry),
+    (r"^std::collections::hash_map::OccupiedEntry::<.*>::(get_mut|get|into_mut)$", m_occupied_value),
+    (r"^std::collections::hash_map::(OccupiedEntry|VacantEntry)::<.*>::key$", m_occupied_key),
+    (r"^std::collections::hash_map::OccupiedEntry::<.*>::remove$", m_occupied_remove),
+    (r"^std::collections::hash_map::VacantEntry::<.*>::insert$", m_vacant_insert),
     (r"^<std::iter::FromFn<.*> as std::iter::Iterator>::collect::<std::vec::Vec<.*>>$", m_from_fn_collect),
     (r"^std::iter::from_fn(::<.*>)?$|^core::iter::from_fn(::<.*>)?$", m_from_fn),
     (r"^<std::iter::FromFn<.*> as std::iter::Iterator>::next$", m_from_fn_next),
